@@ -230,6 +230,7 @@ def check_free(exe, datas, threads, reps, out, cov, tag="free", timeout_each=20.
                 lines.append(case_line("%s%d_%d_%d" % (tag, i, T, r), d, T, [-1]))
     got = run_sched_cases(exe, lines, timeout_each=timeout_each)
     n = 0
+    drift, seen = {}, set()
     for l in lines:
         cid = l.split()[1]
         g = got.get(cid, {})
@@ -240,10 +241,24 @@ def check_free(exe, datas, threads, reps, out, cov, tag="free", timeout_each=20.
         if not o or not ref:
             continue
         n += 1
+        T = int(l.split()[3])
+        if o.get("drift") and o["drift"] != ["0", "0"]:
+            # everything walk_descents allocates through the cholmod_common it also frees: the common's allocation
+            # statistics must be unchanged afterwards.  A drift with >= 2 workers = lost update of malloc_count /
+            # memory_inuse by concurrent cholmod_l_allocate_dense / copy_dense / free_dense (D15)
+            drift[T] = drift.get(T, 0) + 1
+            if T >= 2 and "C12:race-cholmod-common" not in seen:
+                seen.add("C12:race-cholmod-common")
+                payload.update({"drift_malloc_count_memory_inuse": o["drift"], "threads": T})
+                out.violation("C12:race-cholmod-common", "data race on the shared cholmod_common: allocation statistics drift by %s after a walk_descents with %d workers" % (o["drift"], T), dict(payload))
+            elif T == 1 and "C12:cholmod-stats-unbalanced" not in seen:
+                seen.add("C12:cholmod-stats-unbalanced")
+                out.violation("C12:cholmod-stats-unbalanced", "cholmod_common allocation statistics not restored by walk_descents with ONE worker (not a race): %s" % o["drift"], dict(payload))
         if o["x"] != ref["x"] or o["H1"] != ref["H1"] or o["ret"] != ref["feasible"] or (o["ret"] == ["1"] and o["residual"] != ref["residual"]):
             payload.update({"impl": o, "ref": ref})
             out.violation("C12:walk_descents:result", "free-running result differs from the sequential reference with %s threads" % cid.split("_")[1], payload)
     cov["free_runs"] = cov.get("free_runs", 0) + n
+    cov["free_runs_with_cholmod_stat_drift_by_threads"] = {str(k): v for k, v in sorted(drift.items())}
     return n
 
 def run_end_to_end(exe, mode, lines, timeout):
@@ -426,7 +441,7 @@ def run(info, out):
     refs = check_forced(exe, mexe, datas, plan, out, cov)
 
     # 3. the property itself on free-running threads, every thread count
-    nfree = check_free(exe, datas[len(small):][: (60 if thorough else 16) * boost] + datas[:len(small)], THREADS, 3 if thorough else 1, out, cov)
+    nfree = check_free(exe, datas[len(small):][: (60 if thorough else 16) * boost] + datas[:len(small)], THREADS, 6 if thorough else 3, out, cov)
     ne2e = check_thread_counts(exe, rng, (40 if thorough else 8) * boost, (20 if thorough else 3), out, cov,
                                threads=(list(range(1, 33)) if thorough else THREADS))
     # 4. TSan, free-running (thorough)
